@@ -124,7 +124,9 @@ func digestExpr(t numType, e string) string {
 		return "uint64(" + e + ")"
 	case "float":
 		if t.Bits == 32 {
-			return "f32key(" + e + ")"
+			// the widened value exposes results that were never rounded to single precision
+			// (Float32bits alone would round them on the way)
+			return "f32key(" + e + ")^f64key(float64(" + e + "))"
 		}
 		return "f64key(" + e + ")"
 	}
